@@ -143,6 +143,46 @@ def check_export(cont, ren, numbered, res, res2):
     return None
 
 
+def sheet_graph(text):
+    """rows of a sheet with every reference (edge origins, go_to targets) replaced by the POSITION of
+    the row it names (-1 for "start", None when it names no row)"""
+    hdr, rows = sheet_rows(text)
+    if not rows or "row_id" not in hdr:
+        return []
+    ids = [r[hdr.index("row_id")] for r in rows]
+    pos = {}
+    for i, x in enumerate(ids):
+        pos.setdefault(x, i)
+    pos["start"] = -1
+    from_cols = [i for i, h in enumerate(hdr) if re.fullmatch(r"from|edges\.\d+\.from", h)]
+    tcol, mcol = hdr.index("type") if "type" in hdr else None, hdr.index("message_text") if "message_text" in hdr else None
+    out = []
+    for r in rows:
+        froms = [pos.get(r[i]) for i in from_cols if r[i]]
+        tg = []
+        if tcol is not None and mcol is not None and r[tcol] == "go_to":
+            tg = [pos.get(x) for x in r[mcol].split("|") if x]
+        out.append((froms, tg))
+    return out
+
+
+def check_same_graph(readable, numbered):
+    """The readable and the numbered export of one container must denote the same graph: row k of
+    both sheets refers to rows at the same positions (a reference that names an existing but WRONG
+    row is invisible to the per-sheet checks).  Returns (key, summary) or None."""
+    if readable[0] != "ok" or numbered[0] != "ok":
+        return None
+    for fn in readable[1]:
+        if fn not in numbered[1]:
+            continue
+        a, b = sheet_graph(readable[1][fn]), sheet_graph(numbered[1][fn])
+        if a != b:
+            k = next((i for i in range(min(len(a), len(b))) if a[i] != b[i]), min(len(a), len(b)))
+            return ("row-ids", f"{fn}: row {k + 1} refers to rows at positions {a[k] if k < len(a) else None} in the readable sheet "
+                               f"but {b[k] if k < len(b) else None} in the numbered sheet (origins, go_to targets; -1 = start)")
+    return None
+
+
 def leak_corner_uuids(cont):
     """input class of the known corner: group uuids of has_group cases in routers whose operand
     is not @contact.groups (the exporter writes arguments[0] of such a case into the condition)"""
@@ -515,6 +555,10 @@ def run(ctx):
                          ("with_dead_end", "dead"), ("with_multi_action", "multi_action")):
                 feat[a] += 1 if g[b] else 0
         base = {nb: export_impl(cont, nb) for nb in (False, True)}
+        v.coverage["evaluations"] += 1
+        bad = check_same_graph(base[False], base[True])
+        if bad:
+            v.failing_input(bad[0], bad[1], dict(fn="samegraph", container=cont))
         if ctx.model:
             correspond(ctx, kind, cont, cstats)
         if kind.startswith("malformed"):
@@ -575,7 +619,8 @@ def run(ctx):
         "dead ends, shared exits, categories without case, default with case; ~15% malformed, ~4% corner) is exported "
         "with strip_uuids under >= 2 renamings (fresh/permute/reverse/upper) x numbered in {False,True}; an evaluation = "
         "one (container, renaming, numbered) byte comparison incl. uuid scan and row-id check (numbered 1..n, readable "
-        "unique, every from / go_to target cell names a row), or one hash-seed "
+        "unique, every from / go_to target cell names a row), one comparison of the graphs denoted by the readable and "
+        "the numbered sheet of a container (same positions referenced), or one hash-seed "
         "re-export; non-trivial = distinct stripped sheet text with >= 3 rows")
     v.coverage["samples"] = [dict(kind=k, flows=[f["name"] for f in c["flows"]], nodes=[len(f["nodes"]) for f in c["flows"]])
                              for k, c in (conts[0], conts[1], conts[len(conts) // 2], conts[-1])]
@@ -599,6 +644,11 @@ def replay(rep):
         cont2 = ren.apply(cont)
         nb = r["numbered"]
         bad = check_export(cont, ren, nb, export_impl(cont, nb), export_impl(cont2, nb))
+        if bad:
+            print("   ", bad[0], "-", bad[1])
+        return bad is None
+    if r["fn"] == "samegraph":
+        bad = check_same_graph(export_impl(r["container"], False), export_impl(r["container"], True))
         if bad:
             print("   ", bad[0], "-", bad[1])
         return bad is None
